@@ -69,7 +69,6 @@ Qed.
 
 (* ---- search trees ----------------------------------------------------------------------------- *)
 
-Definition tkeys (t : tree) : list str := map gb_str (inorder t).
 Definition bst (fw : bool) (t : tree) : Prop := sorted_dir fw (tkeys t).
 
 Lemma tkeys_node : forall l x r, tkeys (Node l x r) = tkeys l ++ gb_str x :: tkeys r.
@@ -215,4 +214,90 @@ Proof.
   intros fw adds leb n. unfold treeset_run. rewrite (tree_run_spec _ leb).
   fold (tkeys (treeset_of fw (map Some adds))). rewrite treeset_keys.
   rewrite map_map. simpl. rewrite map_id. reflexivity.
+Qed.
+
+(* ---- trees whose elements are all non-nil slices: Current() is never nil (needed under a union) ---- *)
+
+Lemma t_next_pending : forall c, stack_ok (t_stack c) ->
+  exists c', t_next c = Ok c' /\ pending c' = tl (pending c) /\ stack_ok (t_stack c').
+Proof.
+  intros c S. unfold t_next, pending at 2. destruct (t_cur c) as [|l x r] eqn:Ec.
+  - exists c. split; [reflexivity|]. split; [|exact S]. unfold pending. rewrite Ec. reflexivity.
+  - simpl tl. unfold t_next_body. destruct r as [|rl rx rr].
+    + destruct (t_stack c) as [|top rest] eqn:Es.
+      * eexists. split; [reflexivity|]. split; [reflexivity | constructor].
+      * inversion S as [|? ? Htop Hrest]; subst. eexists. split; [reflexivity|]. split; [|exact Hrest].
+        unfold pending. simpl t_cur. simpl t_stack. destruct top as [|tl0 tx tr]; [contradiction|]. reflexivity.
+    + assert (Hr : Node rl rx rr <> Leaf) by discriminate.
+      destruct (descend_spec (Node rl rx rr) (t_stack c) Hr S) as [c' [E [P S']]].
+      exists c'. split; [exact E|]. split; [exact P | exact S'].
+Qed.
+
+Lemma tree_open_pending : forall t, exists c, t_open t = Ok c /\ pending c = inorder t /\ stack_ok (t_stack c).
+Proof.
+  intros [|l x r].
+  - eexists. split; [reflexivity|]. split; [reflexivity | constructor].
+  - assert (Hn : Node l x r <> Leaf) by discriminate.
+    destruct (descend_spec (Node l x r) [] Hn (Forall_nil _)) as [c [E [P S]]].
+    exists c. split; [exact E|]. split; [|exact S]. rewrite P. unfold flat. simpl. apply app_nil_r.
+Qed.
+
+Definition all_some (l : list gobytes) : Prop := Forall (fun x => x <> None) l.
+
+Definition R_tree_nn (c : tcur) (rem : list str) : Prop := R_tree c rem /\ all_some (pending c).
+
+Lemma map_tl : forall (A B : Type) (f : A -> B) l, tl (map f l) = map f (tl l).
+Proof. intros A B f [|x l]; reflexivity. Qed.
+
+Lemma tree_sim_nn : sim tree_cursor R_tree_nn.
+Proof.
+  constructor.
+  - intros c rem [H _]. apply (sim_obs _ _ tree_sim _ _ H).
+  - intros c rem [[E S] A]. destruct (t_next_pending c S) as [c' [En [P S']]].
+    exists c'. split; [exact En|]. split; [split; [|exact S']|].
+    + rewrite P. subst rem. apply map_tl.
+    + rewrite P. unfold all_some in *. destruct (pending c); simpl; [constructor | inversion A; assumption].
+Qed.
+
+Lemma tree_nonnil : nonnil tree_cursor R_tree_nn.
+Proof.
+  intros c x rem [[E _] A]. simpl. unfold t_current. unfold pending in E, A.
+  destruct (t_cur c) as [|l p r]; [discriminate|].
+  inversion A as [|? ? Hp _]; subst. destruct p as [y|]; [exists y; reflexivity | contradiction].
+Qed.
+
+Lemma insert_inorder_in : forall fw v t x, In x (inorder (bst_insert fw v t)) -> x = v \/ In x (inorder t).
+Proof.
+  intros fw v. induction t as [|l IHl y r IHr]; intros x H.
+  - simpl in H. intuition.
+  - simpl bst_insert in H. destruct (dir_cmp fw (gb_str v) (gb_str y)); simpl in *;
+      rewrite in_app_iff in *; simpl in *.
+    + intuition.
+    + destruct H as [H|H]; [apply IHl in H|]; intuition.
+    + destruct H as [H|[H|H]]; [| |apply IHr in H]; intuition.
+Qed.
+
+Lemma treeset_inorder_in : forall fw adds t x,
+  In x (inorder (fold_left (fun t v => bst_insert fw v t) adds t)) -> In x adds \/ In x (inorder t).
+Proof.
+  intros fw. induction adds as [|v adds IH]; intros t x H; simpl in *; [right; exact H|].
+  apply IH in H. destruct H as [H|H]; [left; right; exact H|].
+  apply insert_inorder_in in H. intuition.
+Qed.
+
+Lemma treeset_all_some : forall fw l, all_some (inorder (treeset_of fw (map Some l))).
+Proof.
+  intros fw l. unfold all_some. apply Forall_forall. intros x H. unfold treeset_of in H.
+  apply treeset_inorder_in in H. destruct H as [H|H]; [|contradiction].
+  apply in_map_iff in H. destruct H as [y [E _]]. subst. discriminate.
+Qed.
+
+Lemma treeset_open_nn : forall fw l, exists c,
+  t_open (treeset_of fw (map Some l)) = Ok c /\ R_tree_nn c (dir_list fw (sort_dedup l)).
+Proof.
+  intros fw l. destruct (tree_open_pending (treeset_of fw (map Some l))) as [c [E [P S]]].
+  exists c. split; [exact E|]. split; [split; [|exact S]|].
+  - rewrite P. fold (tkeys (treeset_of fw (map Some l))). rewrite treeset_keys.
+    rewrite map_map. simpl. rewrite map_id. reflexivity.
+  - rewrite P. apply treeset_all_some.
 Qed.
